@@ -79,6 +79,14 @@ type rec struct {
 	ptrs                      []*Cfg // kept alive: identities stay distinct
 	ffail, cfail, pfail       map[int]bool
 	cerr, perr                bool
+	wrap                      func(*Impl) reflect.Value // kind cases: the component type of the kind around the record
+}
+
+func (r *rec) mk(im *Impl, resT reflect.Type) reflect.Value {
+	if r.wrap != nil {
+		return r.wrap(im).Convert(resT)
+	}
+	return reflect.ValueOf(im).Convert(resT)
 }
 
 func (r *rec) id(p *Cfg) int {
@@ -174,7 +182,7 @@ func (r *rec) constructor(ret, cfg string, resT reflect.Type) interface{} {
 			if fail {
 				res = []reflect.Value{reflect.Zero(resT)}
 			} else {
-				res = []reflect.Value{reflect.ValueOf(&Impl{ctor: n, prod: -1, arg: arg}).Convert(resT)}
+				res = []reflect.Value{r.mk(&Impl{ctor: n, prod: -1, arg: arg}, resT)}
 			}
 		} else {
 			if fail {
@@ -189,7 +197,7 @@ func (r *rec) constructor(ret, cfg string, resT reflect.Type) interface{} {
 					if pf {
 						pres = []reflect.Value{reflect.Zero(resT)}
 					} else {
-						pres = []reflect.Value{reflect.ValueOf(&Impl{ctor: n, prod: m, arg: arg}).Convert(resT)}
+						pres = []reflect.Value{r.mk(&Impl{ctor: n, prod: m, arg: arg}, resT)}
 					}
 					if r.perr {
 						if pf {
@@ -294,6 +302,9 @@ func describe(p interface{}, err error) string {
 		return "err:" + classify(err)
 	}
 	im, ok := p.(*Impl)
+	if ki, isK := p.(kimpl); isK {
+		im, ok = ki.inner(), true
+	}
 	if !ok || im == nil {
 		return fmt.Sprintf("ok:notimpl-%T", p)
 	}
@@ -584,6 +595,12 @@ func runCase(c string) string {
 	if f[0] == "hookn" {
 		return runHookNested(f)
 	}
+	if f[0] == "kind" {
+		return runKind(f)
+	}
+	if f[0] == "conc" {
+		return runConc(f)
+	}
 	if len(f) != 13 || f[0] != "c18" {
 		return "unknown-case"
 	}
@@ -857,6 +874,8 @@ func gen(r *vh.Rand, tier string) []string {
 			out = append(out, fmt.Sprintf("hookn %s %d", req, k))
 		}
 	}
+	out = append(out, genKinds(r, tier)...)
+	out = append(out, genConc(r, tier)...)
 	return out
 }
 
